@@ -1,5 +1,6 @@
 import Gv.Oracle.Common
 import Gv.Model.Stats
+import Gv.Spec.Stats
 /-! Oracle handlers for C14 (column statistics). -/
 namespace Gv.Oracle.StatsOps
 open Gv Gv.Oracle Gv.Model
@@ -24,11 +25,8 @@ def handle : Handler := fun op args impl =>
   match op, args with
   | "charstats", [_, rows] => do
     let rows ← decRows rows
-    -- naive definition: for every byte value, the number of residues whose upper-case form it is
-    let naive := (List.range 256).filterMap fun (k : Nat) =>
-      let c := ((rows.flatMap Prod.snd).filter fun x => (toUpper x).toNat == k).length
-      if c > 0 then some (UInt8.ofNat k, c) else none
-    let e := encMap naive ++ " " ++ hexOfBytes (naive.map Prod.fst)
+    -- naive definition (`Gv.Spec.Stats`): for every byte value, the number of residues whose upper-case form it is
+    let e := encMap (Spec.charStats rows) ++ " " ++ hexOfBytes (Spec.uniqueCharacters rows)
     some ⟨encMap (charStats rows) ++ " " ++ hexOfBytes (uniqueCharacters rows), verdictOf (impl == e) "charstats-naive"⟩
   | "charstatsseq", [_, rows, idx] => do
     let rows ← decRows rows
@@ -57,31 +55,64 @@ def handle : Handler := fun op args impl =>
     let rows ← decRows rows
     let L := lenOf rows
     let m := toString (nbVariableSites rows L) ++ " " ++ plus (informativeSites rows L alpha) ++ " " ++ fstr (avgAlleles rows L)
-    -- naive parsimony-informative definition: at least two (upper-cased) characters occurring at least twice
-    let all : Byte := if alpha == 0 then 88 else if alpha == 1 then 78 else 46
-    let naiveInf := (List.range L.toNat).filter fun j =>
-      let col := (columnAt rows j).filter fun s => s != GAP && s != POINT && s != all
-      ((countsBy toUpper col).filter fun p => p.2 ≥ 2).length ≥ 2
+    -- naive definitions (`Gv.Spec.Stats`): variable = two different plain characters; parsimony-informative = at
+    -- least two (upper-cased) characters occurring at least twice
     let v := match impl.splitOn " " with
-      | [_, inf, _] => verdictOf (inf == plus naiveInf) "informative-sites-naive"
+      | [nv, inf, _] =>
+        if inf != plus (Spec.informativeSites rows L.toNat alpha) then "fail:informative-sites-naive"
+        else verdictOf (nv == toString (Spec.nbVariableSites rows L.toNat)) "variable-sites-naive"
       | _ => "fail:unparsable"
     some ⟨m, v⟩
   | "countdiffs", [_, rows] => do
     let rows ← decRows rows
-    let (all, per) := countDifferences rows
+    match countDifferences rows with
+    | none => some ⟨"panic", "na"⟩
+    | some (all, per) =>
     let encPer (m : List ((Byte × Byte) × Nat)) : String :=
       if m.isEmpty then "_" else
       let sorted := m.mergeSort fun a b => decide (chr2 a.1 ≤ chr2 b.1)
       "+".intercalate (sorted.map fun p => chr2 p.1 ++ "=" ++ toString p.2)
-    some ⟨strJoin (all.map chr2) ++ " " ++ strJoin (per.map encPer), "na"⟩
+    let v := match impl.splitOn " " with
+      | [a, _] => verdictOf (a == strJoin ((Spec.allDiffs rows).map chr2)) "alldiffs-not-first-occurrences"
+      | _ => "fail:unparsable"
+    some ⟨strJoin (all.map chr2) ++ " " ++ strJoin (per.map encPer), v⟩
   | "uniques", [alpha, rows] => do
     let alpha ← alpha.toNat?
     let rows ← decRows rows
     let L := lenOf rows
     let z := plus (rows.map fun _ => 0)
     let g := plus (numGapsUnique rows L)
-    let mu := plus (numMutationsUnique rows L alpha)
-    some ⟨g ++ " " ++ z ++ " " ++ z ++ " " ++ mu ++ " " ++ z ++ " " ++ z, "na"⟩
+    match numMutationsUnique rows L alpha with
+    | none => some ⟨"panic", "na"⟩
+    | some mu =>
+    let mu := plus mu
+    -- naive recounts (`Gv.Spec.Stats`)
+    let e := plus (Spec.numGapsUnique rows L.toNat) ++ " " ++ z ++ " " ++ z ++ " " ++
+      plus (Spec.numMutationsUnique rows L.toNat alpha) ++ " " ++ z ++ " " ++ z
+    some ⟨g ++ " " ++ z ++ " " ++ z ++ " " ++ mu ++ " " ++ z ++ " " ++ z, verdictOf (impl == e) "uniques-naive"⟩
+  | "profile", [_, rows, code, site] => do
+    let rows ← decRows rows
+    let code ← code.toNat?
+    let site ← parseInt? site
+    let L := lenOf rows
+    let r := UInt8.ofNat code
+    let encCnt (o : Option Nat) : String := match o with | some n => "ok:" ++ toString n | none => "err"
+    let render (header : List Byte) (counts : List (List Nat)) (cnt : String) : String :=
+      (if header.isEmpty then "-" else hexOfBytes header) ++ " " ++ strJoin (counts.map plus) ++ " " ++ cnt ++ " " ++
+        (if header.isEmpty then "11" else "10")
+    let m := match countProfile rows L with
+      | none => "panic"
+      | some prof =>
+        match profileCount prof r site with
+        | none => "panic"
+        | some c => render (prof.map Prod.fst) (prof.map Prod.snd) (encCnt c)
+    -- the definition (`Gv.Spec.Stats`): header = characters in order of first appearance; count of a character at a
+    -- site = number of rows holding it there; Count is defined for the characters present and 0 ≤ site < L
+    let hdr := Spec.profileHeader rows
+    let e := render hdr (hdr.map fun c => (List.range L.toNat).map fun j => Spec.profileCountAt rows j c)
+      (encCnt (Spec.profileCount rows L.toNat r site))
+    let v := if impl.startsWith "panic" then (if code ≥ 130 then "na" else "fail:profile-crash") else verdictOf (impl == e) "profile-not-the-definition"
+    some ⟨if code > 255 then "unmodelled" else m, v⟩
   | "refmuts", [alpha, sq, rf] => do
     let alpha ← alpha.toNat?
     let s := bytesOfString sq
